@@ -12,7 +12,7 @@ WORLDS = [(1, "plain"), (8, "plain")]
 BUDGET = {"quick": dict(cases=500), "thorough": dict(cases=10000)}
 MIN_NONTRIVIAL = {"quick": 1500, "thorough": 20000}
 BLOB = (300, 1500)
-RULE = ("Hypothesis byte-backed generator: tables of 1-8 commands from shared stems (all handler subsets, variables of all types, multi-step scripts, command "
+RULE = ("Hypothesis byte-backed generator: tables of 1-8 commands from shared stems (all handler subsets, variables of all types, multi-step scripts incl. HOLD released on stall, command "
         "lists, descriptions, implicit-write, only_test, disabled), sequences of 2-10 lines from the C01 line grammar (valid, broken at a generated position with "
         "a valid command as tail, ambiguous abbreviations followed by '=', implicit-write, over-long, blank), each terminated by LF or CRLF with stray CRs at "
         "generated positions; handler scripts and variable-callback counters restart at every line so handlers are pure functions of (command, kind, invocation "
@@ -21,7 +21,7 @@ RULE = ("Hypothesis byte-backed generator: tables of 1-8 commands from shared st
         "Non-trivial = at least 2 non-blank lines of which some neighbouring pair differs in CR usage, or one is malformed / implicit-write / over-long; "
         "distinct by case hash.")
 ASSUMPTIONS = ["names, descriptions, tags and string values contain no raw CR/LF, so every LF in the output is a library-emitted newline",
-               "no HOLD; events only when triggered by handler scripts (then compared per producer: command units byte-exact, event payloads in order; cases in which a trigger met a full ring are skipped and counted)",
+               "HOLD is released on stall with one status per case; events only when triggered by handler scripts (then compared per producer: command units byte-exact, event payloads in order; cases in which a trigger met a full ring are skipped and counted)",
                "handlers are pure functions of (command, kind, invocation index within the line): the world restarts scripts at every consumed LF"]
 TECHNIQUE = "Hypothesis property-based testing; oracle = metamorphic concatenation law on the real library (sequence run vs single-line runs from the same variable state) + model-free newline rule"
 LEVEL_TEXT = ("Metamorphic testing of the real code: no reference model, the sequence run is compared with single-line runs; state leaking from one line into "
@@ -29,7 +29,7 @@ LEVEL_TEXT = ("Metamorphic testing of the real code: no reference model, the seq
 LEVEL_NOTE = "Trusted: world harness (line attribution by consumed LFs, variable dumps at LFs, script restart per line), Hypothesis."
 DESIGN_REF = "DESIGN.md section 5 C20"
 
-CODES = [OK, DATA_OK, DATA_NEXT, NEXT, ERR, LIST, HEX_OK, HEX_ERR, 9]
+CODES = [OK, DATA_OK, DATA_NEXT, NEXT, ERR, LIST, HEX_OK, HEX_ERR, 9, S.HOLD]
 TAILS = (b"ATZ", b"AT+X=1", b"AT", b"AT+T?")
 
 
@@ -57,8 +57,12 @@ def gen(d, tier):
         inp += G.add_crs(d, ln)
     groups = G.g_groups(d, cmds)
     shared = d.below(2) == 0
+    # a handler may return HOLD; every hold is released by cat_hold_exit(status) as soon as the parser stalls, with one status for
+    # the whole case, so the response to a held line is still a function of that line alone
+    st = d.below(2)
+    actions = [[S.AT_STALL, k, S.WA_HOLDEXIT, st, 0, None] for k in range(1, 40)]
     s = S.mk_spec(groups=groups, input=bytes(inp), shared=shared, bufsz=(2 * cc + d.below(2)) if shared else cc, ubufsz=8,
-                  rs=G.g_sched(d, 6), ws=G.g_sched(d, 6), flags=S.WF_LINERESET | S.WF_DUMPLF)
+                  rs=G.g_sched(d, 6), ws=G.g_sched(d, 6), actions=actions, flags=S.WF_LINERESET | S.WF_DUMPLF)
     if d.chance(1, 4):
         # handler-triggered events (at most 2 trigger steps in the table, ring capacity 8, eager io): what is triggered is a
         # function of the line; only the position of the event units among the command units depends on timing
